@@ -1,10 +1,90 @@
-"""C05 - ending a session reclaims everything it ever acquired."""
+"""C05 - ending a session reclaims everything it ever acquired.
+
+Two legs.  BESS: the common L1 driver (tools/props/l1props.py, monitor l1.mon_c05, correspondence with Model/Agent.v).
+UP4: attach / modify / detach cycles on the real UP4 plug-in (tools/props/c05up4.py, harness mode "c14"): after every event
+the plug-in's pools (counter cells, application / session meter cells, tunnel-peer ids, application ids), its maps, the switch
+tables and configured meter cells, the F-TEID generator, the IP pool and the sessions gauge are compared with the live
+sessions and - when no session is live - with the snapshot taken before the first session."""
 from props.l1props import *
+from props import c14up4 as U
+from props import c05up4 as C
+
+UP4_TRUSTED = [
+    "harness/go/verif_c14_test.go: the real HandlePFCPMsg / Shutdown on PFCPConn struct literals with the REAL UP4 plug-in; reads the plug-in's pools and "
+    "maps, the session store, IP pool, F-TEID generator and gauge directly; harness/go/verif_p4rt_test.go: the fake P4Runtime server (tables, meter cells, "
+    "fault injection on the k-th Write)",
+    "tools/props/c05up4.py / c14up4.py + tools/props/c04.py (Gen04): UP4 envelope of the generated histories; attribution of switch entries to sessions by TEID / UE address",
+]
+UP4_RULE = ("; UP4 leg: the finding scenarios; 6 establish / re-marking Update QER / end cycles; random histories of 8-12 attach/modify/detach cycles (up to 3 sessions "
+            "at a time, 2 associations) on arrays of 10 counter cells / 6 meter cells and 3-4 tunnel-peer and application ids: every ending (deletion, association "
+            "release, teardown, report response 'context not found'), modifications (new TEID with / without end marker, uplink FAR, Update QER incl. one that makes "
+            "MarkSessionQer pick another QER, Update PDR, CP F-SEID, unknown FAR, a modification whose k-th Write fails), establishments rejected after resources "
+            "were taken and without association; distinct = distinct event byte sequences + faults + configuration")
+
+
+def up4_leg(ck, tier, seed, replay_case=None):
+    rng = rng_for(seed, "C05-up4")
+    try:
+        binary = build_harness()
+        if replay_case is not None:
+            cases = [replay_case]
+        else:
+            cases = C.corpus() + [C.remark_cycles()]
+            for _ in range(70 if tier == "quick" else 1500):
+                cases.append(C.cycles(random.Random(rng.getrandbits(64))))
+        outs = U.run_up4(binary, [c["input"] for c in cases], tag="c05u")
+    except HarnessError as e:
+        ck.tie("UP4 leg: harness builds and runs against the current tree", False, str(e)[-1500:])
+        return
+    ck.tie("UP4 leg: harness builds and runs against the current tree", True)
+    dist = ck.distribution if isinstance(ck.distribution, dict) else {}
+    n_end = nconfirm = 0
+    for c, o in zip(cases, outs):
+        ck.count(["up4", c["input"]["cfg"], c["input"]["up4"]] + [e.get("hex", e["k"]) + str(e.get("faults", "")) for e in c["input"]["events"]], True)
+        for it in c["intents"]:
+            if it.get("ends") or it.get("op") in ("mod", "est"):
+                k = f"up4:{it.get('op')}/{it.get('kind', '') or ''}/{it.get('expect', '') or ''}" + ("/ends" if it.get("ends") else "")
+                dist[k] = dist.get(k, 0) + 1
+                n_end += len(it.get("ends") or [])
+        seen = set()
+        for sig, msg, i in C.mon_c05_up4(c, o):
+            s = f"{c['tag']}:{sig}" if c.get("tag") else sig
+            if s in seen:
+                continue
+            seen.add(s)
+            if replay_case is None and not c.get("tag") and nconfirm < 10:
+                nconfirm += 1
+                if not U.confirmed(binary, c, sig, C.mon_c05_up4):
+                    ck.notes["unconfirmed_failures"] = ck.notes.get("unconfirmed_failures", 0) + 1
+                    continue
+            ob = o.get("obs", [])
+            ck.fail(s, f"UP4 {c['name']}: {msg}", {"leg": "up4", "tag": c.get("tag"), "name": c["name"], "input": c["input"], "intents": c["intents"], "event": i,
+                                                   "impl_event": {k: v for k, v in (ob[i] if i < len(ob) else {}).items() if k not in ("tables",)}})
+    ck.distribution = dist
+    ck.notes["up4_leg"] = {"histories": len(cases), "sessions_ended": n_end}
 
 
 def run(tier, seed, replay=None):
-    ck, _ = run_prop("C05", tier, seed, replay, 500, 6000,
-                     rule="random histories over 2 associations x up to 4 sessions (setup, establishment incl. without association, the "
-                          "modification kinds of tools/l1.py, deletion, unknown-SEID requests, heartbeat, report response, release, teardown, restart), "
-                          "sequence numbers incl. 0 / 2^24-1, CP SEIDs incl. 0 / 2^64-1; distinct = distinct event byte sequences")
-    return ck if isinstance(ck, int) else ck.finish()
+    rp = json.load(open(replay))["case"] if replay else None
+    rule = ("random histories over 2 associations x up to 4 sessions (setup, establishment incl. without association, the "
+            "modification kinds of tools/l1.py, deletion, unknown-SEID requests, heartbeat, report response, release, teardown, restart), "
+            "sequence numbers incl. 0 / 2^24-1, CP SEIDs incl. 0 / 2^64-1; distinct = distinct event byte sequences" + UP4_RULE)
+    if rp is not None and rp.get("leg") == "up4":
+        ck = Check("C05", tier, seed)
+        ck.trusted = L1_TRUSTED + UP4_TRUSTED
+        ck.rule = rule
+        ck.prove(["Props/C05.vo", "Run/Eval_L1.vo"])
+        up4_leg(ck, tier, seed, replay_case=rp)
+        return ck.finish()
+    ck, _ = run_prop("C05", tier, seed, replay, 500, 6000, rule=rule)
+    if isinstance(ck, int):
+        return ck
+    ck.trusted = L1_TRUSTED + UP4_TRUSTED
+    ck.assumptions = list(ck.assumptions) + [
+        "UP4 leg: a session is live while the agent's session store holds it; an id is held for a session through a stored PDR (counter cell), a meters-map "
+        "row, a tunnel-peer / application user reference; switch entries are attributed by TEID (sessions_uplink) and UE address (other session tables)",
+        "UP4 leg envelope (the shapes outside it that leak on the unchanged tree are the tagged finding scenarios): one PDR pair per session, FAR updates stay "
+        "on the session's gNB, no Create PDR in a modification, establishments whose Write fails only in the finding scenario"]
+    if not replay:
+        up4_leg(ck, tier, seed)
+    return ck.finish()
